@@ -104,3 +104,22 @@ Theorem C01_oracle_dense_only :
                              end.
 Proof. exact Fast.generate_dense_spec. Qed.
 Print Assumptions C01_oracle_dense_only.
+
+From YG Require Import LRBase CompleteDriver Pipeline WfGrammar.
+Close Scope Z_scope.
+Open Scope nat_scope.
+
+(* the same under ONE boolean check of the grammar object (WfGrammar.wf_gi: rule 0 is 0 -> [S], no right-hand side mentions the internal start symbol or the end marker, every symbol below nsyms, the end marker is no left-hand side) - the check is evaluated on every grammar object of every run, so the well-formedness hypotheses of C01_pipeline are not assumptions about the corpus *)
+Theorem C01_checked :
+  forall gi : ginfo,
+         wf_gi gi = true ->
+         forall t : tables,
+         generate_tables gi = inr t ->
+         forall (fuel : nat) (w reds : list nat),
+         (forall a : nat, In a w -> a <> eof /\ a < gi_nsyms gi) ->
+         run fuel (dense_action (length (t_aut t)) (t_dense t)) (gi_rules gi) [(0, eof)] w [] = Acc reds ->
+         exists tr : tree,
+           valid (gi_rules gi) tr /\
+           Some (root (gi_rules gi) tr) = hd_error (rhs_of (gi_rules gi) 0) /\ yield tr = w /\ post tr = reds.
+Proof. exact WfGrammar.checked_sound. Qed.
+Print Assumptions C01_checked.
